@@ -1809,6 +1809,39 @@ package gocql
 //@   modifies nothing
 //@   ensures ok ==> pool != nil
 
+// What the executor relies on from a query or a batch: every attempt is counted (Attempts() is what the retry
+// policies compare with their limit), with or without an observer; a batch is idempotent only if every one of
+// its statements is.
+//@ func (qm *queryMetrics) attempt
+//@   props C13
+//@   trusted adds to the attempt counter and the per-host metrics under the metrics lock
+//@   preserves_types Query Batch Iter HostInfo Conn Session
+
+//@ func (b *Batch) attempt
+//@   props C13
+//@   count_calls queryMetrics.attempt
+//@   requires b != nil && b.metrics != nil && iter != nil
+//@   before[C13] queryMetrics.attempt: arg0 == b.metrics && arg1 == 1 && arg3 == host
+//@   ensures[C13] queryMetrics_attempt_calls == 1
+
+//@ func (q *Query) attempt
+//@   props C13
+//@   count_calls queryMetrics.attempt
+//@   requires q != nil && q.metrics != nil && iter != nil
+//@   before[C13] queryMetrics.attempt: arg0 == q.metrics && arg1 == 1 && arg3 == host
+//@   ensures[C13] queryMetrics_attempt_calls == 1
+
+//@ func (b *Batch) IsIdempotent
+//@   props C13
+//@   modifies nothing
+//@   ensures[C13] result == forall(k, 0 <= k && k < len(b.Entries), b.Entries[k].Idempotent)
+//@   loop 0: invariant -1 <= rangeindex && rangeindex < len(b.Entries) && forall(k, 0 <= k && k <= rangeindex, b.Entries[k].Idempotent)
+
+//@ func (q *Query) IsIdempotent
+//@   props C13
+//@   modifies nothing
+//@   ensures result == q.idempotent
+
 //@ func (q *queryExecutor) do
 //@   props C13
 //@   count_calls attemptQuery Attempt GetRetryType hostIter IsIdempotent
@@ -1827,6 +1860,12 @@ package gocql
 //@   loop 0: step attemptQuery_calls == prev(attemptQuery_calls) + 1 && GetRetryType_ret0 == RetryNextHost ==> hostIter_calls == prev(hostIter_calls) + 1
 // no attempt in this iteration (host down / no pool / no connection): just the next host
 //@   loop 0: step attemptQuery_calls == prev(attemptQuery_calls) ==> hostIter_calls == prev(hostIter_calls) + 1
+// (a policy's decision methods do not touch the iterator of the attempt they are asked about)
+//@   stable_across GetRetryType: iter.err
+//@   stable_across Attempt: iter.err
+// the error kept for the caller is the one of the last attempt made
+//@   loop 0: step attemptQuery_calls == prev(attemptQuery_calls) + 1 ==> lastErr == attemptQuery_ret0.err && lastErr != nil
+//@   loop 0: step attemptQuery_calls == prev(attemptQuery_calls) ==> lastErr == prev(lastErr)
 // exactly one result, never nil
 //@   ensures result != nil
 //@   ensures attemptQuery_calls == 0 ==> result.err != nil
@@ -3180,6 +3219,22 @@ package gocql
 // ---------------------------------------------------------------------------
 // uuid.go (RFC 4122; oracle in /verif/spec/bv.smt2 blocks uuid, hex)
 // ---------------------------------------------------------------------------
+
+// The RFC 4122 timestamp of an instant: 100 ns intervals since 15 Oct 1582, computed from the whole seconds and the
+// nanoseconds of the second (exact for every instant a time.Time holds; UnixNano is undefined outside 1678..2262)
+//@ func getTimestamp
+//@   props C19
+//@   ensures result == (time_unix(t) - timeBase)*10000000 + int64(time_nsec(t)/100)
+
+// a time UUID: the timestamp of the instant, a clock sequence taken from the process-wide counter in ONE atomic
+// step (two goroutines never get the same value), the node id
+//@ func UUIDFromTime
+//@   props C19
+//@   count_calls getTimestamp TimeUUIDWith AddUint32 LoadUint32
+//@   before[C19] TimeUUIDWith: arg0 == getTimestamp_ret0 && getTimestamp_calls == 1 && AddUint32_calls == 1 && arg1 == AddUint32_ret0 && same(arg2, hardwareAddr)
+//@   before[C19] AddUint32: arg1 == 1
+// ... and the counter is never read in a separate step
+//@   ensures[C19] AddUint32_calls == 1 && LoadUint32_calls == 0 && TimeUUIDWith_calls == 1 && result == TimeUUIDWith_ret0
 
 //@ func TimeUUIDWith
 //@   props C19
